@@ -6,7 +6,10 @@ package main
 //   - element flow: which values can ever be an element of the identity list handed to the subset test
 //     (through phis, append, helper results, parameters and a list variable filled in through a pointer);
 //   - interprocedural cut: an edge counts as a gate also when it is the success edge of a module call that
-//     cannot succeed without passing a gate itself.
+//     cannot succeed without passing a gate itself;
+//   - (third pass) constant lists by origin (local literal, package-level variable never written, argument, result of
+//     a function), the mandatory attribute types as a must-pass fact of the success exits (c04MandCovered), and the
+//     DN parser decided over its call tree (frames linked by "a failure below fails the parse", c04LinkFrames).
 
 import (
 	"fmt"
@@ -543,7 +546,7 @@ func c04EdgeFacts(pred, blk *ssa.BasicBlock) map[string]bool {
 func c04LitAlloc(v ssa.Value) *ssa.Alloc {
 	switch x := v.(type) {
 	case *ssa.Slice:
-		if al, ok := x.X.(*ssa.Alloc); ok && x.Low == nil && x.High == nil && al.Comment == "slicelit" {
+		if al, ok := x.X.(*ssa.Alloc); ok && x.Low == nil && x.High == nil && (al.Comment == "slicelit" || al.Comment == "varargs") {
 			return al
 		}
 	case *ssa.UnOp:
@@ -583,19 +586,6 @@ func c04LitConstOnly(al *ssa.Alloc) bool {
 		}
 	}
 	return true
-}
-
-// c04LeavesEarly: a witness path from the body of the loop to a success exit of the function that does not take
-// the loop's own exit edge (header, no further element) — i.e. the loop is left by a break / goto while elements
-// remain. nil: success is reached only after the loop ran out of elements.
-func c04LeavesEarly(fi *FnInfo, l *sliceLoop) []string {
-	cut := map[edgeKey]bool{}
-	for j, s := range l.Header.Succs {
-		if s == l.Exit && s != l.Body {
-			cut[edgeKey{l.Header.Index, j}] = true
-		}
-	}
-	return fi.successWitness(Mode{Kind: mErr}, []state{{l.Body.Index, 0, -1}}, cut)
 }
 
 // c04HasLabel: a whole label with that beginning and that end.
@@ -652,4 +642,900 @@ func c04TupleBoolSelected(w *World, f *c04Frame, cond ssa.Value, truth bool, sel
 		n++
 	}
 	return n > 0
+}
+
+// ---- constant lists ------------------------------------------------------------
+
+// c04SameValue: a is the value v (possibly behind a representation-preserving conversion).
+func c04SameValue(a, v ssa.Value) bool {
+	for i := 0; i < 4; i++ {
+		if a == v {
+			return true
+		}
+		ct, ok := a.(*ssa.ChangeType)
+		if !ok {
+			return false
+		}
+		a = ct.X
+	}
+	return false
+}
+
+// c04Returned marks a slice value made fresh by every call of its function (a literal): returning it shares it with
+// that caller only, whose uses of the call result are checked in turn.
+type c04Returned struct{ ssa.Value }
+
+// c04SliceReadOnly: the slice value is only read where it is used in this function: indexed without a store through
+// the element address, measured, rendered into a message, or handed to a module function / slices.Contains /
+// slices.Index that only reads its parameter in turn. (A slice shares its backing array, so a write through any
+// use would change the list for everybody.)
+func c04SliceReadOnly(w *World, v ssa.Value, depth int) bool {
+	if depth > 4 {
+		return false
+	}
+	retOK := false
+	if r, ok := v.(c04Returned); ok {
+		v, retOK = r.Value, true
+	}
+	refs := v.Referrers()
+	if refs == nil {
+		return true
+	}
+	for _, r := range *refs {
+		switch x := r.(type) {
+		case *ssa.Return:
+			if !retOK {
+				return false
+			}
+		case *ssa.IndexAddr:
+			if addrWritten(x, 0) {
+				return false
+			}
+		case *ssa.Index, *ssa.DebugRef:
+		case *ssa.Call:
+			if bi, ok := x.Call.Value.(*ssa.Builtin); ok {
+				if bi.Name() == "len" || bi.Name() == "cap" {
+					continue
+				}
+				return false
+			}
+			g := staticCallee(x)
+			if g == nil {
+				return false
+			}
+			if n := calleeName(x); n == "slices.Contains" || n == "slices.Index" {
+				continue
+			}
+			if g.Blocks == nil || !w.IsProductFn(g) || len(g.Params) != len(x.Call.Args) {
+				return false
+			}
+			for i, a := range x.Call.Args {
+				if a == v && !c04SliceReadOnly(w, g.Params[i], depth+1) {
+					return false
+				}
+			}
+		default:
+			if !onlyFormatted(r, 0) {
+				return false
+			}
+		}
+	}
+	return true
+}
+
+// c04GlobalInit: the package-level variable g is given its value exactly once in the module, by its package
+// initialiser (one store of a literal, or the element stores go/ssa emits when it builds an array literal in
+// place), and is everywhere else in the module only read: loaded as a whole (an array load is a copy; a slice load
+// must be read-only in the sense of c04SliceReadOnly), or indexed without a store through the element address. Its
+// address is never handed out. Only variables that nothing outside the module can reach (unexported, or of an
+// internal package) qualify. Returned: the element values of the literal, in order.
+func c04GlobalInit(w *World, g *ssa.Global) ([]ssa.Value, string) {
+	if g.Pkg == nil || !w.IsProductPkg(g.Pkg.Pkg.Path()) {
+		return nil, "not a variable of the module"
+	}
+	if token.IsExported(g.Name()) && !strings.Contains(g.Pkg.Pkg.Path()+"/", "/internal/") {
+		return nil, "exported variable of a public package (can be assigned from outside the module)"
+	}
+	gt := g.Type().(*types.Pointer).Elem().Underlying()
+	_, isSlice := gt.(*types.Slice)
+	var whole ssa.Value
+	inPlace := map[int64]ssa.Value{}
+	for _, fn := range w.Funcs {
+		isInit := fn.Parent() == nil && fn.Synthetic != "" && fn.Name() == "init" && fn.Pkg == g.Pkg
+		for _, b := range fn.Blocks {
+			for _, in := range b.Instrs {
+				uses := false
+				for _, op := range in.Operands(nil) {
+					if op != nil && *op == ssa.Value(g) {
+						uses = true
+					}
+				}
+				if !uses {
+					continue
+				}
+				switch x := in.(type) {
+				case *ssa.Store:
+					if x.Addr != ssa.Value(g) || x.Val == ssa.Value(g) {
+						return nil, "its address is stored"
+					}
+					if !isInit || whole != nil {
+						return nil, "assigned outside its declaration (" + w.InstrPos(x) + ")"
+					}
+					whole = x.Val
+				case *ssa.UnOp:
+					if x.Op != token.MUL {
+						return nil, "used by " + x.String()
+					}
+					if isSlice && !c04SliceReadOnly(w, x, 0) {
+						return nil, "a use of the list may write an element (" + w.InstrPos(x) + ")"
+					}
+				case *ssa.IndexAddr:
+					if isInit {
+						// an element store of the literal built in place
+						k, isK := x.Index.(*ssa.Const)
+						refs := x.Referrers()
+						if isK && k.Value != nil && refs != nil && len(*refs) == 1 {
+							if st, ok := (*refs)[0].(*ssa.Store); ok && st.Addr == ssa.Value(x) {
+								if n, exact := constant.Int64Val(k.Value); exact {
+									if _, dup := inPlace[n]; !dup {
+										inPlace[n] = st.Val
+										continue
+									}
+								}
+							}
+						}
+					}
+					if addrWritten(x, 0) {
+						return nil, "an element is written or its address handed out (" + w.InstrPos(x) + ")"
+					}
+				case *ssa.Slice:
+					// arr[:] shares the elements of the array
+					if x.X != ssa.Value(g) || !c04SliceReadOnly(w, x, 0) {
+						return nil, "an element may be written through a slice of the variable (" + w.InstrPos(x) + ")"
+					}
+				case *ssa.DebugRef:
+				default:
+					return nil, fmt.Sprintf("its address is used by %T (%s)", in, w.InstrPos(in))
+				}
+			}
+		}
+	}
+	switch {
+	case whole != nil && len(inPlace) == 0:
+		al := c04LitAlloc(whole)
+		if al == nil {
+			return nil, "not initialised by a literal"
+		}
+		els := orderedLitElems(al)
+		if els == nil || !c04LitConstOnly(al) {
+			return nil, "literal with an element that is not set once by a constant index"
+		}
+		return els, ""
+	case whole == nil && len(inPlace) > 0:
+		arr, ok := gt.(*types.Array)
+		if !ok || arr.Len() != int64(len(inPlace)) {
+			return nil, "array literal that leaves elements unset"
+		}
+		out := make([]ssa.Value, arr.Len())
+		for i := range out {
+			out[i] = inPlace[int64(i)]
+			if out[i] == nil {
+				return nil, "array literal that leaves elements unset"
+			}
+		}
+		return out, ""
+	}
+	return nil, "no initialiser, or more than one"
+}
+
+// c04StringConsts: the values are all string constants.
+func c04StringConsts(els []ssa.Value) ([]string, string) {
+	var out []string
+	for _, e := range els {
+		k, ok := e.(*ssa.Const)
+		if !ok || k.Value == nil || k.Value.Kind() != constant.String {
+			return nil, "list with an element that is not a string constant"
+		}
+		out = append(out, constant.StringVal(k.Value))
+	}
+	return out, ""
+}
+
+// c04LitConsts: the elements of a literal, when all are string constants set once.
+func c04LitConsts(al *ssa.Alloc) ([]string, string) {
+	els := orderedLitElems(al)
+	if els == nil || !c04LitConstOnly(al) {
+		return nil, "literal with an element that is not set once by a constant index"
+	}
+	return c04StringConsts(els)
+}
+
+// c04ConstList: the string constants a list value (slice, array, pointer to array) holds whenever it is read, when
+// the program text decides that:
+//
+//   - a local literal `[]string{..}` / `[...]string{..}` whose elements are constants and are never overwritten;
+//   - a package-level variable holding such a literal that is never written after its declaration (c04GlobalInit):
+//     hoisting the list out of the function does not change what the loop ranges over;
+//   - a parameter, when the function is a frame of a call tree: what the caller passes at that call;
+//   - the result of a static module function all of whose returns are such lists with the same elements.
+//
+// nil + reason when not decided.
+func c04ConstList(w *World, f *c04Frame, v ssa.Value, depth int) ([]string, string) {
+	if depth > 4 {
+		return nil, "too deep"
+	}
+	if al := c04LitAlloc(v); al != nil {
+		if sl, ok := v.(*ssa.Slice); ok && !c04SliceReadOnly(w, c04Returned{sl}, 0) {
+			return nil, "an element of the literal may be overwritten"
+		}
+		return c04LitConsts(al)
+	}
+	switch x := v.(type) {
+	case *ssa.Global:
+		// the uses of the variable are the uses of the literal: checked by c04GlobalInit
+		els, why := c04GlobalInit(w, x)
+		if els == nil {
+			return nil, "package-level list " + desc(x) + ": " + why
+		}
+		return c04StringConsts(els)
+	case *ssa.UnOp:
+		if g, ok := x.X.(*ssa.Global); ok && x.Op == token.MUL {
+			return c04ConstList(w, f, g, depth)
+		}
+	case *ssa.ChangeType:
+		return c04ConstList(w, f, x.X, depth)
+	case *ssa.Slice:
+		// arr[:] of a package-level array
+		if g, ok := x.X.(*ssa.Global); ok && x.Low == nil && x.High == nil {
+			if !c04SliceReadOnly(w, x, 0) {
+				return nil, "an element may be written through the slice of " + desc(g)
+			}
+			return c04ConstList(w, f, g, depth)
+		}
+	case *ssa.Parameter:
+		if f != nil {
+			if !c04SliceReadOnly(w, x, 0) {
+				return nil, "the list parameter may be written"
+			}
+			if pf, pv, ok := f.upValue(x); ok {
+				return c04ConstList(w, pf, pv, depth+1)
+			}
+		}
+		return nil, "a parameter of the entry function"
+	case *ssa.Call:
+		g := staticCallee(x)
+		if g == nil || g.Blocks == nil || !w.IsProductFn(g) || g.Signature.Results().Len() != 1 {
+			return nil, "result of a call that is not a static module call"
+		}
+		if _, isSlice := x.Type().Underlying().(*types.Slice); isSlice && !c04SliceReadOnly(w, x, 0) {
+			return nil, "an element of the returned list may be overwritten"
+		}
+		var out []string
+		n := 0
+		for _, b := range g.Blocks {
+			r, ok := blockTerm(b).(*ssa.Return)
+			if !ok || len(r.Results) != 1 {
+				continue
+			}
+			els, why := c04ConstList(w, nil, r.Results[0], depth+1)
+			if els == nil {
+				return nil, why
+			}
+			if n > 0 && strings.Join(els, "\x00") != strings.Join(out, "\x00") {
+				return nil, "the function returns different lists"
+			}
+			out = els
+			n++
+		}
+		if n == 0 {
+			return nil, "no return"
+		}
+		return out, ""
+	}
+	return nil, "not a literal of string constants, nor a package-level variable holding one (" + trunc(desc(v), 60) + ")"
+}
+
+// ---- the mandatory attribute types ---------------------------------------------
+
+// c04MapWrites: the instructions of f.fn that may change the map value M (a store of an entry, delete / clear, a call
+// of a module function that does so with its parameter, a call the walk cannot look into). aliased: M is copied
+// somewhere the walk does not follow (a variable, a field, a closure, a phi): then a write may happen anywhere.
+func c04MapWrites(w *World, f *c04Frame, M ssa.Value) (writes []ssa.Instruction, aliased bool) {
+	refs := M.Referrers()
+	if refs == nil {
+		return nil, false
+	}
+	for _, r := range *refs {
+		switch x := r.(type) {
+		case *ssa.Lookup, *ssa.Range, *ssa.Return, *ssa.DebugRef:
+		case *ssa.MapUpdate:
+			if x.Map == M {
+				writes = append(writes, x)
+			} else {
+				aliased = true
+			}
+		case *ssa.ChangeType:
+			ws, al := c04MapWrites(w, f, x)
+			writes = append(writes, ws...)
+			aliased = aliased || al
+		case *ssa.Call:
+			if bi, ok := x.Call.Value.(*ssa.Builtin); ok {
+				if bi.Name() != "len" {
+					writes = append(writes, x)
+				}
+				continue
+			}
+			if isFormattingCall(x) {
+				continue
+			}
+			ch := f.child(w, x)
+			if ch == nil {
+				writes = append(writes, x)
+				continue
+			}
+			for i, a := range x.Call.Args {
+				if a == M {
+					ws, al := c04MapWrites(w, ch, ch.fn.Params[i])
+					if len(ws) > 0 || al {
+						writes = append(writes, x)
+					}
+				}
+			}
+		default:
+			if !onlyFormatted(r, 0) {
+				aliased = true
+			}
+		}
+	}
+	return writes, aliased
+}
+
+// c04NonEmptyKey: the branch condition evaluating to truth states that the entry of M under some key is present with a
+// non-empty value (`M[k] != ""`, `len(M[k]) > 0`) or, as the rule has always accepted, present (`_, ok := M[k]; ok`).
+// Returned: that lookup. It is identified as an SSA value (a lookup in M itself, not in a map that prints alike).
+func c04NonEmptyKey(cond ssa.Value, truth bool, M ssa.Value) *ssa.Lookup {
+	label := condLabel(cond, truth)
+	var found *ssa.Lookup
+	var walk func(v ssa.Value, depth int)
+	walk = func(v ssa.Value, depth int) {
+		if depth > 5 || found != nil {
+			return
+		}
+		switch x := v.(type) {
+		case *ssa.UnOp:
+			if x.Op == token.NOT {
+				walk(x.X, depth+1)
+			}
+		case *ssa.BinOp:
+			walk(x.X, depth+1)
+			walk(x.Y, depth+1)
+		case *ssa.Call:
+			if bi, ok := x.Call.Value.(*ssa.Builtin); ok && bi.Name() == "len" && len(x.Call.Args) == 1 {
+				walk(x.Call.Args[0], depth+1)
+			}
+		case *ssa.Extract:
+			walk(x.Tuple, depth+1)
+		case *ssa.Lookup:
+			if !c04SameValue(x.X, M) {
+				return
+			}
+			d := desc(x)
+			for _, l := range []string{"NE(" + d + `,const:"")`, "NE(len(" + d + "),const:0)", "T(ok(" + d + "))"} {
+				if label == l {
+					found = x
+				}
+			}
+		}
+	}
+	walk(cond, 0)
+	return found
+}
+
+// c04UnitStep: the index of the loop starts at the first element and advances by one (the loops go/ssa builds for
+// `range` over a slice or array, and `for i := 0; i < len(x); i++`). Returned: the index value the body uses.
+func c04UnitStep(l *sliceLoop) ssa.Value {
+	iff, ok := blockTerm(l.Header).(*ssa.If)
+	if !ok {
+		return nil
+	}
+	bo, ok := iff.Cond.(*ssa.BinOp)
+	if !ok || bo.Op != token.LSS {
+		return nil
+	}
+	isInt := func(v ssa.Value, n int64) bool {
+		k, ok := v.(*ssa.Const)
+		if !ok || k.Value == nil || k.Value.Kind() != constant.Int {
+			return false
+		}
+		m, exact := constant.Int64Val(k.Value)
+		return exact && m == n
+	}
+	plusOne := func(v ssa.Value) ssa.Value {
+		if a, ok := v.(*ssa.BinOp); ok && a.Op == token.ADD && isInt(a.Y, 1) {
+			return a.X
+		}
+		return nil
+	}
+	var phi *ssa.Phi
+	var first int64
+	var next ssa.Value
+	if p, ok := bo.X.(*ssa.Phi); ok {
+		phi, first = p, 0 // i := 0; i < n; i++
+	} else if p, ok := plusOne(bo.X).(*ssa.Phi); ok {
+		phi, first, next = p, -1, bo.X // range: i = phi(-1, i+1) + 1
+	}
+	if phi == nil || phi.Block() != l.Header {
+		return nil
+	}
+	in := loopBlocks(l.Header)
+	for i, e := range phi.Edges {
+		if in[phi.Block().Preds[i].Index] {
+			if next != nil && e != next {
+				return nil
+			}
+			if next == nil && plusOne(e) != ssa.Value(phi) {
+				return nil
+			}
+		} else if !isInt(e, first) {
+			return nil
+		}
+	}
+	return bo.X
+}
+
+// c04ElemOf: v is the element of the loop's list at the loop's index.
+func c04ElemOf(v ssa.Value, l *sliceLoop, idx ssa.Value) bool {
+	for i := 0; i < 3; i++ {
+		switch x := v.(type) {
+		case *ssa.ChangeType:
+			v = x.X
+			continue
+		case *ssa.Index:
+			return x.Index == idx && (x.X == l.X || desc(x.X) == desc(l.X))
+		case *ssa.UnOp:
+			if ia, ok := x.X.(*ssa.IndexAddr); ok && x.Op == token.MUL {
+				return ia.Index == idx && (ia.X == l.X || desc(ia.X) == desc(l.X))
+			}
+		}
+		return false
+	}
+	return false
+}
+
+// c04Succ: what "the function succeeded" means to the caller that branches on its answer: an engine mode (nil
+// error / the single boolean result being Want), or — tuple — component k of the result tuple being truth
+// (`field, ok := firstMissing(m)`; `if !ok`).
+type c04Succ struct {
+	mode  Mode
+	tuple bool
+	k     int
+	truth bool
+}
+
+// witness: a path from the start states to an exit that can be a success, avoiding the cut edges (nil: none). For a
+// tuple component every return that does not deliver the constant opposite answer counts as a possible success
+// (plain CFG reachability: coarser than the engine's, so it can only find more exits).
+func (s c04Succ) witness(fi *FnInfo, starts []state, cut map[edgeKey]bool) []string {
+	if !s.tuple {
+		return fi.successWitness(s.mode, starts, cut)
+	}
+	targets := map[int]bool{}
+	for _, b := range fi.Fn.Blocks {
+		r, ok := blockTerm(b).(*ssa.Return)
+		if !ok || s.k >= len(r.Results) {
+			continue
+		}
+		if condLabel(r.Results[s.k], s.truth) == "FALSE" {
+			continue // this return delivers the other answer
+		}
+		targets[b.Index] = true
+	}
+	for _, st := range starts {
+		if targets[st.b] {
+			return []string{fmt.Sprintf("b%d %s", st.b, fi.blockPos(fi.Fn.Blocks[st.b]))}
+		}
+	}
+	if fi.reachHit(starts, cut, targets) {
+		return []string{"a return that can deliver the answer is reachable"}
+	}
+	return nil
+}
+
+// c04CondCallX: c04CondCall, and the boolean component of the result tuple of a call.
+func c04CondCallX(cond ssa.Value, truth bool) (*ssa.Call, c04Succ, bool) {
+	if call, mode, ok := c04CondCall(cond, truth); ok {
+		return call, c04Succ{mode: mode}, true
+	}
+	for {
+		u, ok := cond.(*ssa.UnOp)
+		if !ok || u.Op != token.NOT {
+			break
+		}
+		cond, truth = u.X, !truth
+	}
+	if ex, ok := cond.(*ssa.Extract); ok {
+		if call, ok := ex.Tuple.(*ssa.Call); ok {
+			if b, isB := ex.Type().Underlying().(*types.Basic); isB && b.Kind() == types.Bool {
+				return call, c04Succ{tuple: true, k: ex.Index, truth: truth}, true
+			}
+		}
+	}
+	return nil, c04Succ{}, false
+}
+
+// c04LeavesEarlyMode: a witness path from the body of the loop to an exit of the function that is a success in the sense
+// of succ and that does not take the loop's own exit edge (header, no further element) — i.e. the loop is left by a
+// break / goto / return while elements remain. nil: success is reached only after the loop ran out of elements.
+func c04LeavesEarlyMode(fi *FnInfo, l *sliceLoop, succ c04Succ) []string {
+	cut := map[edgeKey]bool{}
+	for j, s := range l.Header.Succs {
+		if s == l.Exit && s != l.Body {
+			cut[edgeKey{l.Header.Index, j}] = true
+		}
+	}
+	return succ.witness(fi, []state{{l.Body.Index, 0, -1}}, cut)
+}
+
+// c04MandCovered decides which attribute types are known to have a (non-empty) value in the map M at every exit of
+// f.fn that is a success in the sense of succ. M is a value of f.fn: the map the parser made, or the parameter through which a
+// helper receives it. An attribute type K is covered when no success exit remains once the edges that witness K are
+// removed, a witness being
+//
+//	(1) a branch edge that states M[K] != "" for the constant K;
+//	(2) the entry of a loop over a list of constants that contains K (c04ConstList: a local literal, a package-level
+//	    variable never written, what the caller passes), when the loop visits every element (starts at the first,
+//	    advances by one), an iteration continues to the next only through a branch edge that states M[element] != "",
+//	    and the function cannot succeed from inside the loop other than by running out of elements;
+//	(3) the success edge of a call of a module function that is handed M and covers K for its parameter by the same
+//	    rule (the check extracted into a helper; `if err := check(m); err != nil`, `if !complete(m)`,
+//	    `if field, ok := firstMissing(m); !ok`).
+//
+// In each case no write to M may be reachable after the witness (what was seen non-empty stays), and M must not be
+// aliased. The clause decided is the one the base shape decides with its loop over a local literal: a parse that
+// succeeds returns a map in which each of the listed types has a value — where the list is written down and at which
+// call boundary the test sits does not enter into it.
+func c04MandCovered(w *World, f *c04Frame, M ssa.Value, succ c04Succ, notes *[]string) map[string]bool {
+	have := map[string]bool{}
+	fi := w.Info(f.fn)
+	writes, aliased := c04MapWrites(w, f, M)
+	if aliased {
+		*notes = append(*notes, fnName(f.fn)+": the map is copied into a variable, field or closure")
+		return have
+	}
+	// a write to M is reachable from the start of the block / after the instruction
+	writeFromBlock := func(b *ssa.BasicBlock) bool {
+		if len(writes) == 0 {
+			return false
+		}
+		t := blocksOf(writes...)
+		return t[b.Index] || fi.reachHit([]state{{b.Index, 0, -1}}, nil, t)
+	}
+	writeAfter := func(in ssa.Instruction) bool {
+		for _, wr := range writes {
+			if wr.Block() == in.Block() && instrIndex(wr) > instrIndex(in) {
+				return true
+			}
+		}
+		for _, s := range in.Block().Succs {
+			if writeFromBlock(s) {
+				return true
+			}
+		}
+		return false
+	}
+	cuts := map[string]map[edgeKey]bool{}
+	add := func(k string, e edgeKey) {
+		if cuts[k] == nil {
+			cuts[k] = map[edgeKey]bool{}
+		}
+		cuts[k][e] = true
+	}
+	// (2) loops over constant lists
+	type mloop struct {
+		l     sliceLoop
+		idx   ssa.Value
+		elems []string
+		gate  map[edgeKey]bool
+	}
+	var loops []*mloop
+	for _, sl := range sliceLoops(f.fn) {
+		sl := sl
+		idx := c04UnitStep(&sl)
+		if idx == nil {
+			continue
+		}
+		if t, ok := sl.X.Type().Underlying().(*types.Slice); !ok || !c04IsString(t.Elem()) {
+			pt, isP := sl.X.Type().Underlying().(*types.Pointer)
+			var at types.Type = sl.X.Type()
+			if isP {
+				at = pt.Elem()
+			}
+			if a, ok := at.Underlying().(*types.Array); !ok || !c04IsString(a.Elem()) {
+				continue
+			}
+		}
+		elems, why := c04ConstList(w, f, sl.X, 0)
+		if elems == nil {
+			*notes = append(*notes, fmt.Sprintf("%s: list of the loop at %s not decided: %s", fnName(f.fn), w.InstrPos(blockTerm(sl.Header)), why))
+			continue
+		}
+		loops = append(loops, &mloop{l: sl, idx: idx, elems: elems, gate: map[edgeKey]bool{}})
+	}
+	for _, b := range f.fn.Blocks {
+		iff, ok := blockTerm(b).(*ssa.If)
+		if !ok || len(b.Succs) != 2 || b.Succs[0] == b.Succs[1] {
+			continue
+		}
+		for j := 0; j < 2; j++ {
+			truth := j == 0
+			e := edgeKey{b.Index, j}
+			if lk := c04NonEmptyKey(iff.Cond, truth, M); lk != nil {
+				if k, isK := lk.Index.(*ssa.Const); isK && k.Value != nil && k.Value.Kind() == constant.String {
+					if !writeAfter(lk) {
+						add(constant.StringVal(k.Value), e) // (1)
+					}
+				}
+				for _, ml := range loops {
+					if c04ElemOf(lk.Index, &ml.l, ml.idx) && loopBlocks(ml.l.Header)[b.Index] {
+						ml.gate[e] = true
+					}
+				}
+				continue
+			}
+			// (3)
+			call, csucc, ok := c04CondCallX(iff.Cond, truth)
+			if !ok {
+				continue
+			}
+			ch := f.child(w, call)
+			if ch == nil || writeAfter(call) {
+				continue
+			}
+			for i, a := range call.Call.Args {
+				if c04SameValue(a, M) && isMapSS(ch.fn.Params[i].Type()) {
+					for k := range c04MandCovered(w, ch, ch.fn.Params[i], csucc, notes) {
+						add(k, e)
+					}
+				}
+			}
+		}
+	}
+	for _, ml := range loops {
+		site := w.InstrPos(blockTerm(ml.l.Header))
+		if len(ml.gate) == 0 {
+			continue // not a loop that tests M
+		}
+		if fi.reachHit([]state{{ml.l.Body.Index, 0, -1}}, ml.gate, map[int]bool{ml.l.Header.Index: true}) {
+			*notes = append(*notes, fmt.Sprintf("%s: an iteration of the loop at %s reaches the next element without the test of its own element", fnName(f.fn), site))
+			continue
+		}
+		if wit := c04LeavesEarlyMode(fi, &ml.l, succ); wit != nil {
+			*notes = append(*notes, fmt.Sprintf("%s: the loop at %s can be left for a success exit before its end (%s)", fnName(f.fn), site, strings.Join(wit, " > ")))
+			continue
+		}
+		if writeFromBlock(ml.l.Body) {
+			*notes = append(*notes, fmt.Sprintf("%s: the map is written in or after the loop at %s", fnName(f.fn), site))
+			continue
+		}
+		into := map[edgeKey]bool{}
+		cutInto(fi, ml.l.Header, into)
+		for _, k := range ml.elems {
+			for e := range into {
+				add(k, e)
+			}
+		}
+	}
+	for k, cut := range cuts {
+		if succ.witness(fi, entryState(), cut) == nil {
+			have[k] = true
+		}
+	}
+	return have
+}
+
+func c04IsString(t types.Type) bool {
+	b, ok := t.Underlying().(*types.Basic)
+	return ok && b.Kind() == types.String
+}
+
+// ---- the DN parser over its call tree ------------------------------------------
+
+// c04ParserShape: func(string) (map[string]string, error), declared at package level.
+func c04ParserShape(fn *ssa.Function) bool {
+	sig := fn.Signature
+	return fn.Parent() == nil && fn.Blocks != nil && sig.Recv() == nil && sig.Params().Len() == 1 && sig.Results().Len() == 2 &&
+		c04IsString(sig.Params().At(0).Type()) && isMapSS(sig.Results().At(0).Type()) && isErrorType(sig.Results().At(1).Type())
+}
+
+// c04InnerParser: fn has the shape of the DN parser but is reached from another function of that shape in its package
+// that it does not reach itself: a worker of that parser.
+func c04InnerParser(w *World, fn *ssa.Function) bool {
+	if fn.Pkg == nil {
+		return false
+	}
+	reaches := func(a, b *ssa.Function) bool {
+		for _, g := range w.moduleCallees(a) {
+			if g == b && a != b {
+				return true
+			}
+		}
+		return false
+	}
+	for _, m := range fn.Pkg.Members {
+		q, ok := m.(*ssa.Function)
+		if !ok || q == fn || !c04ParserShape(q) {
+			continue
+		}
+		if reaches(q, fn) && !reaches(fn, q) {
+			return true
+		}
+	}
+	return false
+}
+
+// under: f is g or a frame below g in the call tree.
+func (f *c04Frame) under(g *c04Frame) bool {
+	for p := f; p != nil; p = p.parent {
+		if p == g {
+			return true
+		}
+	}
+	return false
+}
+
+// c04FrameOf: the frame of the list that call enters from f.
+func c04FrameOf(frames []*c04Frame, f *c04Frame, call *ssa.Call) *c04Frame {
+	for _, g := range frames {
+		if g.parent == f && g.call == call {
+			return g
+		}
+	}
+	return nil
+}
+
+// c04Link: how the caller of a frame decides that the frame's function succeeded (succ), and whether a failure of the
+// function is a failure of the root on every path (linked).
+type c04Link struct {
+	succ   c04Succ
+	linked bool
+}
+
+// c04LinkFrames: the root succeeds by returning a nil error. A frame below is linked when its caller is, the caller
+// branches on the answer of the call (`if err != nil`, `if !ok`), and from the call the caller has no success exit
+// except over the edges on which the call succeeded. frames lists parents before children (c04Frames).
+func c04LinkFrames(w *World, frames []*c04Frame) map[*c04Frame]*c04Link {
+	out := map[*c04Frame]*c04Link{}
+	for _, f := range frames {
+		if f.parent == nil {
+			out[f] = &c04Link{succ: c04Succ{mode: Mode{Kind: mErr}}, linked: true}
+			continue
+		}
+		pl := out[f.parent]
+		lk := &c04Link{}
+		out[f] = lk
+		if pl == nil {
+			continue
+		}
+		cut := map[edgeKey]bool{}
+		n, same := 0, true
+		for _, b := range f.parent.fn.Blocks {
+			iff, ok := blockTerm(b).(*ssa.If)
+			if !ok || len(b.Succs) != 2 || b.Succs[0] == b.Succs[1] {
+				continue
+			}
+			for j := 0; j < 2; j++ {
+				call, cs, ok := c04CondCallX(iff.Cond, j == 0)
+				if !ok || call != f.call {
+					continue
+				}
+				if n > 0 && cs != lk.succ {
+					same = false
+				}
+				lk.succ = cs
+				cut[edgeKey{b.Index, j}] = true
+				n++
+			}
+		}
+		if n == 0 || !same || !pl.linked {
+			continue
+		}
+		pfi := w.Info(f.parent.fn)
+		lk.linked = pl.succ.witness(pfi, []state{{f.call.Block().Index, 0, -1}}, cut) == nil
+	}
+	return out
+}
+
+// c04ResultMap: the map a result value is — made where it is returned, or in the module function whose result is handed
+// on (every return of that function that does not return the nil map returns the one map it made). nil: not decided.
+func c04ResultMap(w *World, frames []*c04Frame, f *c04Frame, v ssa.Value, depth int) *ssa.MakeMap {
+	if depth > c04MaxDepth || f == nil {
+		return nil
+	}
+	var call *ssa.Call
+	k := 0
+	switch x := v.(type) {
+	case *ssa.MakeMap:
+		return x
+	case *ssa.ChangeType:
+		return c04ResultMap(w, frames, f, x.X, depth+1)
+	case *ssa.Parameter:
+		if pf, pv, ok := f.upValue(x); ok {
+			return c04ResultMap(w, frames, pf, pv, depth+1)
+		}
+		return nil
+	case *ssa.Extract:
+		c, ok := x.Tuple.(*ssa.Call)
+		if !ok {
+			return nil
+		}
+		call, k = c, x.Index
+	case *ssa.Call:
+		call = x
+	default:
+		return nil
+	}
+	ch := c04FrameOf(frames, f, call)
+	if ch == nil {
+		return nil
+	}
+	var mm *ssa.MakeMap
+	for _, b := range ch.fn.Blocks {
+		r, ok := blockTerm(b).(*ssa.Return)
+		if !ok || k >= len(r.Results) {
+			continue
+		}
+		if isNilConst(r.Results[k]) {
+			continue
+		}
+		m := c04ResultMap(w, frames, ch, r.Results[k], depth+1)
+		if m == nil || (mm != nil && mm != m) {
+			return nil
+		}
+		mm = m
+	}
+	return mm
+}
+
+// c04MapOrigin: the value a map operand is, followed through the parameters of the frames up to where it was made.
+func c04MapOrigin(f *c04Frame, v ssa.Value) ssa.Value {
+	for i := 0; i < 2*c04MaxDepth && f != nil; i++ {
+		switch x := v.(type) {
+		case *ssa.ChangeType:
+			v = x.X
+			continue
+		case *ssa.Parameter:
+			pf, pv, ok := f.upValue(x)
+			if !ok {
+				return v
+			}
+			f, v = pf, pv
+			continue
+		}
+		return v
+	}
+	return v
+}
+
+// c04LoopAt: a loop of a frame; x: what it ranges over and idx: its index, rendered in the root frame.
+type c04LoopAt struct {
+	f   *c04Frame
+	l   *sliceLoop
+	x   string
+	idx string
+}
+
+// c04StoreAt: a store into the result map in a frame.
+type c04StoreAt struct {
+	f  *c04Frame
+	mu *ssa.MapUpdate
+}
+
+// c04LoopIndex: the index of a slice loop as desc prints it inside an element of the list.
+func c04LoopIndex(l *sliceLoop) string {
+	if iff, ok := blockTerm(l.Header).(*ssa.If); ok {
+		if bo, ok := iff.Cond.(*ssa.BinOp); ok {
+			return descIndex(bo.X)
+		}
+	}
+	return "?"
 }
